@@ -20,8 +20,15 @@ const (
 
 // ParseJSONB parses PostgreSQL JSONB binary format
 func ParseJSONB(data []byte) interface{} {
+	v, _ := parseJSONB(data)
+	return v
+}
+
+// parseJSONB is ParseJSONB with an explicit success flag, so that callers can
+// tell a JSON null document (nil, true) from data that is not JSONB (nil, false).
+func parseJSONB(data []byte) (interface{}, bool) {
 	if len(data) < 4 {
-		return nil
+		return nil, false
 	}
 
 	header := u32(data, 0)
@@ -30,7 +37,7 @@ func ParseJSONB(data []byte) interface{} {
 
 	// count == 0 is a valid (empty) object or array
 	if (!isObj && !isArr) || count > 10000 {
-		return nil
+		return nil, false
 	}
 
 	numEntries := count
@@ -38,7 +45,7 @@ func ParseJSONB(data []byte) interface{} {
 		numEntries *= 2
 	}
 	if 4+numEntries*4 > len(data) {
-		return nil
+		return nil, false
 	}
 
 	entries := make([]uint32, numEntries)
@@ -56,10 +63,10 @@ func ParseJSONB(data []byte) interface{} {
 
 	if header&jbFScalar != 0 {
 		if arr, ok := result.([]interface{}); ok && len(arr) == 1 {
-			return arr[0]
+			return arr[0], true
 		}
 	}
-	return result
+	return result, true
 }
 
 func parseJSONBObject(data []byte, entries []uint32, dataStart, count int) map[string]interface{} {
